@@ -1,2 +1,286 @@
+//! Syntactic inventories over the crate's non-test sources, compared with the committed
+//! expectation file /verif/inventories/expected.json.  Every inventory is a sorted list of strings
+//! "file::owner::fn[#k]: detail"; a difference in either direction is an open obligation.
 use crate::*;
-pub fn run(_repo: &Path, _out: &Path) -> Result<(), String> { Ok(()) }
+use syn::visit::Visit;
+
+fn is_cfg_test(attrs: &[syn::Attribute]) -> bool {
+    attrs.iter().any(|a| a.path().is_ident("cfg") && quote::quote!(#a).to_string().contains("test"))
+}
+
+struct Ctx {
+    file: String,
+    owner: String,
+    func: String,
+}
+
+#[derive(Default)]
+struct Inv {
+    raw_access: Set<String>,      // fns touching self.tokens / self.index
+    no_skip_callers: Set<String>, // fns calling *_no_skip
+    location_literals: Set<String>, // `Location { .. }` struct literals: fn + fields text
+    twl_literals: Set<String>,    // `TokenWithLocation { .. }` literals
+    type_id_uses: Set<String>,    // type_id()/downcast/Any uses
+    dialect_of_uses: Map<String, usize>, // fn -> count of dialect_of! uses
+    panic_sites: Vec<String>,     // unwrap/expect/panic!/unreachable!/assert*/index expressions
+    err_discard: Set<String>,     // .ok() / if let Ok(..) / Err(_) => on parser calls
+    text_compare: Set<String>,    // comparisons of token spelling with string literals
+    comma_loops: Set<String>,     // fns that consume Token::Comma themselves
+}
+
+struct V<'a> {
+    ctx: &'a Ctx,
+    inv: &'a mut Inv,
+}
+
+fn norm(ts: impl quote::ToTokens) -> String {
+    let s = ts.to_token_stream().to_string();
+    s.split_whitespace().collect::<Vec<_>>().join(" ")
+}
+
+impl<'a> V<'a> {
+    fn key(&self) -> String {
+        format!("{}::{}::{}", self.ctx.file, self.ctx.owner, self.ctx.func)
+    }
+}
+
+impl<'a, 'ast> Visit<'ast> for V<'a> {
+    fn visit_expr_field(&mut self, f: &'ast syn::ExprField) {
+        if let syn::Member::Named(n) = &f.member {
+            if (n == "tokens" || n == "index") && matches!(&*f.base, syn::Expr::Path(p) if p.path.is_ident("self")) && self.ctx.owner == "Parser" {
+                self.inv.raw_access.insert(self.key());
+            }
+        }
+        syn::visit::visit_expr_field(self, f);
+    }
+    fn visit_expr_method_call(&mut self, m: &'ast syn::ExprMethodCall) {
+        let name = m.method.to_string();
+        if name.ends_with("_no_skip") {
+            self.inv.no_skip_callers.insert(format!("{} -> {name}", self.key()));
+        }
+        if name == "type_id" || name.starts_with("downcast") {
+            self.inv.type_id_uses.insert(format!("{}: .{name}()", self.key()));
+        }
+        if name == "unwrap" || name == "expect" {
+            self.inv.panic_sites.push(format!("{}: .{name}() on {}", self.key(), trunc(&norm(&m.receiver), 80)));
+        }
+        if name == "ok" && m.args.is_empty() {
+            let recv = norm(&m.receiver);
+            if recv.contains("parse_") || recv.contains("expect_") {
+                self.inv.err_discard.insert(format!("{}: {}.ok()", self.key(), trunc(&recv, 80)));
+            }
+        }
+        if name == "consume_token" {
+            let a = norm(&m.args);
+            if a.contains("Token :: Comma") && !["is_parse_comma_separated_end"].contains(&self.ctx.func.as_str()) {
+                self.inv.comma_loops.insert(self.key());
+            }
+        }
+        if name == "eq_ignore_ascii_case" || name == "starts_with" || name == "ends_with" {
+            let recv = norm(&m.receiver);
+            if recv.contains("value") || recv.contains("to_string") || recv.contains("w .") {
+                self.inv.text_compare.insert(format!("{}: {}.{name}({})", self.key(), trunc(&recv, 60), trunc(&norm(&m.args), 40)));
+            }
+        }
+        syn::visit::visit_expr_method_call(self, m);
+    }
+    fn visit_expr_binary(&mut self, b: &'ast syn::ExprBinary) {
+        if matches!(b.op, syn::BinOp::Eq(_) | syn::BinOp::Ne(_)) {
+            let (l, r) = (norm(&b.left), norm(&b.right));
+            let lit = |s: &str| s.starts_with('"');
+            if (lit(&l) || lit(&r)) && (l.contains("value") || r.contains("value") || l.contains("to_string") || r.contains("to_string")) {
+                self.inv.text_compare.insert(format!("{}: {} {} {}", self.key(), trunc(&l, 60), if matches!(b.op, syn::BinOp::Eq(_)) { "==" } else { "!=" }, trunc(&r, 60)));
+            }
+        }
+        syn::visit::visit_expr_binary(self, b);
+    }
+    fn visit_expr_struct(&mut self, s: &'ast syn::ExprStruct) {
+        let n = s.path.segments.last().map(|x| x.ident.to_string()).unwrap_or_default();
+        if n == "Location" {
+            self.inv.location_literals.insert(format!("{}: {}", self.key(), norm(s)));
+        }
+        if n == "TokenWithLocation" {
+            self.inv.twl_literals.insert(format!("{}: {}", self.key(), norm(s)));
+        }
+        syn::visit::visit_expr_struct(self, s);
+    }
+    fn visit_expr_index(&mut self, i: &'ast syn::ExprIndex) {
+        self.inv.panic_sites.push(format!("{}: index {}", self.key(), trunc(&norm(i), 80)));
+        syn::visit::visit_expr_index(self, i);
+    }
+    fn visit_expr_if(&mut self, e: &'ast syn::ExprIf) {
+        if let syn::Expr::Let(l) = &*e.cond {
+            let p = norm(&l.pat);
+            let x = norm(&l.expr);
+            if p.starts_with("Ok") && (x.contains("parse_") || x.contains("expect_")) {
+                self.inv.err_discard.insert(format!("{}: if let {} = {}", self.key(), trunc(&p, 30), trunc(&x, 70)));
+            }
+        }
+        syn::visit::visit_expr_if(self, e);
+    }
+    fn visit_arm(&mut self, a: &'ast syn::Arm) {
+        let p = norm(&a.pat);
+        if p == "Err (_)" {
+            self.inv.err_discard.insert(format!("{}: Err(_) => {}", self.key(), trunc(&norm(&a.body), 50)));
+        }
+        syn::visit::visit_arm(self, a);
+    }
+    fn visit_macro(&mut self, m: &'ast syn::Macro) {
+        let name = m.path.segments.last().map(|s| s.ident.to_string()).unwrap_or_default();
+        match name.as_str() {
+            "panic" | "unreachable" | "unimplemented" | "todo" | "assert" | "assert_eq" | "assert_ne" => {
+                self.inv.panic_sites.push(format!("{}: {name}!({})", self.key(), trunc(&norm(&m.tokens), 60)));
+            }
+            "dialect_of" => {
+                *self.inv.dialect_of_uses.entry(self.key()).or_insert(0) += 1;
+            }
+            _ => {}
+        }
+        if let Ok(args) = m.parse_body_with(syn::punctuated::Punctuated::<syn::Expr, syn::Token![,]>::parse_terminated) {
+            for a in args.iter() {
+                self.visit_expr(a);
+            }
+        }
+    }
+}
+
+fn trunc(s: &str, n: usize) -> String {
+    if s.chars().count() <= n { s.to_string() } else { s.chars().take(n).collect::<String>() + "…" }
+}
+
+fn type_name(t: &syn::Type) -> String {
+    match t {
+        syn::Type::Path(p) => p.path.segments.last().map(|s| s.ident.to_string()).unwrap_or_default(),
+        syn::Type::Reference(r) => type_name(&r.elem),
+        _ => "?".into(),
+    }
+}
+
+fn walk_items(items: &[syn::Item], file: &str, inv: &mut Inv) {
+    for it in items {
+        match it {
+            syn::Item::Fn(f) if !is_cfg_test(&f.attrs) => {
+                let ctx = Ctx { file: file.into(), owner: "free".into(), func: f.sig.ident.to_string() };
+                V { ctx: &ctx, inv }.visit_block(&f.block);
+            }
+            syn::Item::Impl(im) if !is_cfg_test(&im.attrs) => {
+                let ty = type_name(&im.self_ty);
+                let owner = match &im.trait_ { Some(t) => format!("{ty} as {}", t.1.segments.last().unwrap().ident), None => ty };
+                for ii in &im.items {
+                    if let syn::ImplItem::Fn(f) = ii {
+                        if is_cfg_test(&f.attrs) { continue; }
+                        let ctx = Ctx { file: file.into(), owner: owner.clone(), func: f.sig.ident.to_string() };
+                        V { ctx: &ctx, inv }.visit_block(&f.block);
+                    }
+                }
+            }
+            syn::Item::Trait(t) => {
+                for ti in &t.items {
+                    if let syn::TraitItem::Fn(f) = ti {
+                        if let Some(b) = &f.default {
+                            let ctx = Ctx { file: file.into(), owner: format!("trait {}", t.ident), func: f.sig.ident.to_string() };
+                            V { ctx: &ctx, inv }.visit_block(b);
+                        }
+                    }
+                }
+            }
+            syn::Item::Mod(m) if !is_cfg_test(&m.attrs) => {
+                if let Some((_, its)) = &m.content { walk_items(its, file, inv); }
+            }
+            syn::Item::Macro(m) => {
+                // macro_rules bodies (dialect_of!, parser_err!) are not walked
+                let _ = m;
+            }
+            _ => {}
+        }
+    }
+}
+
+pub fn run(repo: &Path, out: &Path) -> Result<(), String> {
+    let mut inv = Inv::default();
+    let mut inv_ast = Inv::default();
+    let mut uses_nondeterminism: Set<String> = Set::new();
+    for f in rs_files(&repo.join("src")) {
+        let src = fs::read_to_string(&f).map_err(|e| e.to_string())?;
+        let file = syn::parse_file(&src).map_err(|e| format!("{f:?}: {e}"))?;
+        let rel = f.strip_prefix(repo.join("src")).unwrap().to_string_lossy().to_string();
+        for pat in ["HashMap", "HashSet", "Instant::", "SystemTime::", "std::time", "rand::", "thread_rng"] {
+            if src.contains(pat) { uses_nondeterminism.insert(format!("{rel}: {pat}")); }
+        }
+        if rel.starts_with("parser") || rel.starts_with("dialect") || rel == "tokenizer.rs" {
+            walk_items(&file.items, &rel, &mut inv);
+        } else {
+            walk_items(&file.items, &rel, &mut inv_ast);
+        }
+    }
+    let mut panic_sites: Vec<String> = inv.panic_sites.clone();
+    panic_sites.sort();
+    // number duplicates so that a second identical site in the same fn is still a change
+    let mut counted: Vec<String> = vec![];
+    let mut last = String::new();
+    let mut k = 0;
+    for p in panic_sites {
+        if p == last { k += 1; } else { k = 0; last = p.clone(); }
+        counted.push(if k == 0 { p } else { format!("{p} #{k}") });
+    }
+    let mut ast_panics: Vec<String> = inv_ast.panic_sites.clone();
+    ast_panics.sort();
+    let mut counted_ast: Vec<String> = vec![];
+    let (mut last, mut k) = (String::new(), 0);
+    for p in ast_panics {
+        if p == last { k += 1; } else { k = 0; last = p.clone(); }
+        counted_ast.push(if k == 0 { p } else { format!("{p} #{k}") });
+    }
+    let cur = serde_json::json!({
+        "raw_access": inv.raw_access,
+        "no_skip_callers": inv.no_skip_callers,
+        "location_literals": inv.location_literals,
+        "twl_literals": inv.twl_literals,
+        "type_id_uses": inv.type_id_uses.union(&inv_ast.type_id_uses).cloned().collect::<Vec<_>>(),
+        "dialect_of_uses": inv.dialect_of_uses,
+        "panic_sites": counted,
+        "panic_sites_ast": counted_ast,
+        "err_discard": inv.err_discard,
+        "text_compare": inv.text_compare,
+        "comma_loops": inv.comma_loops,
+        "nondeterminism": uses_nondeterminism,
+    });
+    write_if_changed(&out.join("inventory.json"), &serde_json::to_string_pretty(&cur).unwrap());
+
+    // compare with the committed expectation
+    let exp: serde_json::Value = fs::read_to_string("/verif/inventories/expected.json").ok().and_then(|t| serde_json::from_str(&t).ok()).unwrap_or(serde_json::json!({}));
+    let diff = |name: &str| -> (bool, String) {
+        let tolist = |v: &serde_json::Value| -> Set<String> {
+            match v {
+                serde_json::Value::Array(a) => a.iter().map(|x| x.as_str().unwrap_or("").to_string()).collect(),
+                serde_json::Value::Object(o) => o.iter().map(|(k, v)| format!("{k} x{v}")).collect(),
+                _ => Set::new(),
+            }
+        };
+        let (a, b) = (tolist(&cur[name]), tolist(&exp[name]));
+        let added: Vec<&String> = a.difference(&b).collect();
+        let removed: Vec<&String> = b.difference(&a).collect();
+        (added.is_empty() && removed.is_empty(), format!("{} entries; new: {:?}; gone: {:?}", a.len(), added.iter().take(6).collect::<Vec<_>>(), removed.iter().take(6).collect::<Vec<_>>()))
+    };
+    let mk = |names: &[&str]| -> serde_json::Value {
+        let mut m = serde_json::Map::new();
+        for n in names {
+            let (ok, note) = diff(n);
+            m.insert(format!("inventory.{n}"), serde_json::json!({"ok": ok, "note": note}));
+        }
+        serde_json::Value::Object(m)
+    };
+    let obl = serde_json::json!({
+        "C02": mk(&["panic_sites", "panic_sites_ast", "raw_access"]),
+        "C05": mk(&["err_discard"]),
+        "C07": mk(&["raw_access", "no_skip_callers"]),
+        "C08": mk(&["text_compare"]),
+        "C10": mk(&["location_literals", "twl_literals", "nondeterminism", "raw_access"]),
+        "C12": mk(&["err_discard"]),
+        "C13": mk(&["comma_loops"]),
+        "C14": mk(&["raw_access"]),
+        "C15": mk(&["type_id_uses", "dialect_of_uses"]),
+    });
+    write_if_changed(&out.join("obl_inventory.json"), &serde_json::to_string_pretty(&obl).unwrap());
+    Ok(())
+}
